@@ -68,4 +68,45 @@ structure MapFieldM (f : FieldD) (c : Nat) : Prop where
   grp : f.group = Option.none
   nw : f.wraps = Option.none
 
+/-- a REPEATED Timestamp (`isDur = false`) or Duration (`isDur = true`) field
+    (`List[datetime]` / `List[timedelta]`): never optional, never a oneof member -/
+structure TimesField (f : FieldD) (isDur : Bool) : Prop where
+  ty : f.ty = PType.message
+  nw : f.wraps = Option.none
+  kind : f.kind = (if isDur then MsgKind.duration else MsgKind.timestamp)
+  num : numOk f.num = true
+  rep : f.repeated = true
+  opt : f.optional = false
+  grp : f.group = Option.none
+
+/-- a map field whose values are Timestamps (`isDur = false`) or Durations (`isDur = true`) -/
+structure MapFieldT (f : FieldD) (isDur : Bool) : Prop where
+  ty : f.ty = PType.map
+  kty : isMapKeyType f.mapK = true
+  vty : f.mapV = PType.message
+  vk : f.mapVKind = (if isDur then MsgKind.duration else MsgKind.timestamp)
+  num : numOk f.num = true
+  rep : f.repeated = false
+  opt : f.optional = false
+  grp : f.group = Option.none
+  nw : f.wraps = Option.none
+
+/-- an element of a repeated Timestamp / Duration field, a value of a map with Timestamp /
+    Duration values: a datetime (`isDur = false`) / timedelta (`isDur = true`) in the
+    protobuf-valid range -/
+def timeValOk (isDur : Bool) : Val → Bool
+  | .ts us => !isDur && tsOk us
+  | .dur us => isDur && durOk us
+  | _ => false
+
+theorem timeValOk_ts (x : Val) (h : timeValOk false x = true) : ∃ us, x = Val.ts us ∧ tsOk us = true := by
+  cases x with
+  | ts us => exact ⟨us, rfl, by simpa [timeValOk] using h⟩
+  | _ => simp [timeValOk] at h
+
+theorem timeValOk_dur (x : Val) (h : timeValOk true x = true) : ∃ us, x = Val.dur us ∧ durOk us = true := by
+  cases x with
+  | dur us => exact ⟨us, rfl, by simpa [timeValOk] using h⟩
+  | _ => simp [timeValOk] at h
+
 end Bp
